@@ -62,29 +62,34 @@ Qed.
 
 Definition rev_xparams (N ram : Z) : xparams := {| xN := N; keep_all_deps := false; budget_ram := Some ram; budget_disk := Some 0 |}.
 
+Lemma revolve_J0 N ram disk L0 : 1 <= N -> 0 <= ram -> (2 <= N -> 1 <= ram) -> RevBlk.Blk true 0 (N - 1) ram L0 ->
+  J N ram (map inj L0) KRevolve ram disk (RevCost.work L0) {| ob := ORevF KRevolve N ram disk (init_r (map inj L0)); started := false |} mon0.
+Proof.
+  intros HN Hram Hram1 HB. set (L := map inj L0).
+  pose proof (Blk_nonempty _ _ _ _ _ HB) as Hne.
+  assert (Hprev : exists prev, prevop L0 0 = Some prev).
+  { unfold prevop. destruct (rev L0) as [|z r] eqn:E; [|eauto]. apply (f_equal (@rev _)) in E. rewrite rev_involutive in E. contradiction. }
+  destruct Hprev as [prev Hprev].
+  destruct (blk_stream_ok N ram L0 (Some prev) HN Hram Hram1 HB) as (acts & c' & x' & lastop & Hconv & Hexs & Hsn & Hst & Hrr & Hef).
+  pose proof (conv_link N L0 [] prev RevGen.init_c acts c' (Some lastop) (length L0) (Blk_wf _ _ _ _ _ HB) (fun _ => Hprev) Hconv) as Hlink.
+  cbn [app length] in Hlink.
+  apply (Jrun N ram L KRevolve ram disk (RevCost.work L0) 0%nat init_c [] RevGen.init_x 0 false mon0).
+  - lia.
+  - reflexivity.
+  - unfold Rx, toMS, RevGen.init_x, mon0, x0. cbn. repeat split; reflexivity.
+  - unfold NN, RevGen.init_x. cbn. repeat split; try lia; try discriminate. intros f Hf; injection Hf as <-; lia.
+  - intros a b Hd; discriminate.
+  - cbn [AgP]. split; reflexivity.
+  - constructor.
+  - exists acts, (cmap c'), x'. unfold L. rewrite map_length, Nat.sub_0_r. cbn [app]. rewrite (conv_work N _ _ _ _ _ _ Hconv). repeat split; auto.
+Qed.
+
 Theorem revolve_cfg_run N ram disk L0 k : 1 <= N -> 0 <= ram -> (2 <= N -> 1 <= ram) -> RevBlk.Blk true 0 (N - 1) ram L0 ->
   let '(s', m, ls) := run_ops (rev_xparams N ram) {| ob := ORevF KRevolve N ram disk (init_r (map inj L0)); started := false |} mon0 (repeat Next k) in
   mon_ok m /\ no_raise ls /\ (is_exhausted s' = true -> fwd_total (cnt (mx m)) = RevCost.work L0).
 Proof.
   intros HN Hram Hram1 HB.
-  set (L := map inj L0).
-  assert (HJ0 : J N ram L KRevolve ram disk (RevCost.work L0) {| ob := ORevF KRevolve N ram disk (init_r L); started := false |} mon0).
-  { pose proof (Blk_nonempty _ _ _ _ _ HB) as Hne.
-    assert (Hprev : exists prev, prevop L0 0 = Some prev).
-    { unfold prevop. destruct (rev L0) as [|z r] eqn:E; [|eauto]. apply (f_equal (@rev _)) in E. rewrite rev_involutive in E. contradiction. }
-    destruct Hprev as [prev Hprev].
-    destruct (blk_stream_ok N ram L0 (Some prev) HN Hram Hram1 HB) as (acts & c' & x' & lastop & Hconv & Hexs & Hsn & Hst & Hrr & Hef).
-    pose proof (conv_link N L0 [] prev RevGen.init_c acts c' (Some lastop) (length L0) (Blk_wf _ _ _ _ _ HB) (fun _ => Hprev) Hconv) as Hlink.
-    cbn [app length] in Hlink.
-    apply (Jrun N ram L KRevolve ram disk (RevCost.work L0) 0%nat init_c [] RevGen.init_x 0 false mon0).
-    - lia.
-    - reflexivity.
-    - unfold Rx, toMS, RevGen.init_x, mon0, x0. cbn. repeat split; reflexivity.
-    - unfold NN, RevGen.init_x. cbn. repeat split; try lia; try discriminate. intros f Hf; injection Hf as <-; lia.
-    - intros a b Hd; discriminate.
-    - cbn [AgP]. split; reflexivity.
-    - constructor.
-    - exists acts, (cmap c'), x'. unfold L. rewrite map_length, Nat.sub_0_r. cbn [app]. rewrite (conv_work N _ _ _ _ _ _ Hconv). repeat split; auto. }
+  pose proof (revolve_J0 N ram disk L0 HN Hram Hram1 HB) as HJ0. set (L := map inj L0) in *.
   pose proof (run_nexts (RevBridge2.pR N ram) (J N ram L KRevolve ram disk (RevCost.work L0)) (J_step N ram Hram L KRevolve ram disk (RevCost.work L0)) k _ _ HJ0 eq_refl) as Hrun.
   change (RevBridge2.pR N ram) with (rev_xparams N ram) in Hrun.
   destruct (run_ops (rev_xparams N ram) _ mon0 (repeat Next k)) as [[s' m'] ls]. destruct Hrun as (HJ & H1 & H2).
@@ -92,6 +97,21 @@ Proof.
   intros He. inversion HJ as [i c p x d stt m0 Hi Hm HRx HNN HWD HAg Hcl HFut|i c stt m0 Hm Htot]; subst.
   - cbn in He. discriminate.
   - exact Htot.
+Qed.
+
+(* the stream is finite: two requests per op at most *)
+Theorem revolve_cfg_terminates N ram disk L0 k : 1 <= N -> 0 <= ram -> (2 <= N -> 1 <= ram) -> RevBlk.Blk true 0 (N - 1) ram L0 ->
+  (2 * length L0 + 1 < k)%nat ->
+  is_exhausted (fst (fst (run_ops (rev_xparams N ram) {| ob := ORevF KRevolve N ram disk (init_r (map inj L0)); started := false |} mon0 (repeat Next k)))) = true.
+Proof.
+  intros HN Hram Hram1 HB Hk.
+  pose proof (revolve_J0 N ram disk L0 HN Hram Hram1 HB) as HJ0. set (L := map inj L0) in *.
+  apply (run_nexts_fin (RevBridge2.pR N ram) (J N ram L KRevolve ram disk (RevCost.work L0)) (muS L) is_exhausted
+           (J_step N ram Hram L KRevolve ram disk (RevCost.work L0))
+           (muS_nonneg N ram L KRevolve ram disk (RevCost.work L0))
+           (muS_dec N ram L KRevolve ram disk (RevCost.work L0))
+           (exh_stays N ram L KRevolve ram disk (RevCost.work L0)) k _ _ HJ0 eq_refl).
+  right. unfold muS. cbn [ob init_r finished idx pend length]. unfold L. rewrite map_length. lia.
 Qed.
 
 Theorem revolve_run_of_grammar N ram disk uf ub wd rd L0 k : 1 <= N -> 0 <= ram -> (2 <= N -> 1 <= ram) ->
